@@ -458,6 +458,10 @@ def case_ramlb(ctx, cls, n, masks, as_nx):
                     sat = bool(tt.models_of(F))
                     ctx.count("exact_cases")
                     ctx.count("satisfiable_cases" if sat else "unsatisfiable_cases")
+                    if F.number_of_variables() != 1 + max(k, s_) * n:
+                        ctx.violation("ramlb:numvar", "%s has %d variables, expected 1 + max(k,s)*n = %d"
+                                      % (desc, F.number_of_variables(), 1 + max(k, s_) * n))
+                        continue
                     if sat != (has_c or has_i):
                         mech = "ramlb:satisfiability" if k == s_ else "ramlb:ignores-s(k!=s):satisfiability"
                         ctx.violation(mech, "%s is %ssatisfiable but the graph has %s %d-clique and %s %d-independent set"
